@@ -187,8 +187,29 @@ static void blt_same_buffer_case (vf_rng *r)
     free (model); vf_buf_free (&b);
 }
 
+/* C04: storage the LIBRARY allocates must be as large as the image it then describes.  Sizes on either side of the points where width x depth
+ * leaves 31, 32 ... 36 bits: the constructor either refuses or returns an image whose stride holds a whole row (nothing is written here) */
+static void create_case (vf_rng *r)
+{
+    static const pixman_format_code_t fs[] = { PIXMAN_a1, PIXMAN_a4, PIXMAN_a8, PIXMAN_r5g6b5, PIXMAN_r8g8b8, PIXMAN_a8r8g8b8, PIXMAN_rgb_float, PIXMAN_rgba_float };
+    pixman_format_code_t f = VF_PICK (r, fs); int bpp = PIXMAN_FORMAT_BPP (f);
+    int k = (int)vf_range (r, 29, 37); int64_t w = ((int64_t)1 << k) / bpp + vf_range (r, -2, 2);
+    if (vf_chance (r, 1, 4)) w = ((int64_t)3 << (k - 1)) / bpp + vf_range (r, -2, 2);
+    if (w < 1 || w > INT32_MAX) return;
+    int h = (int)vf_range (r, 1, 2);
+    vf_case_desc ("pixman_image_create_bits (%s, %lld, %d, NULL, 0)", rp_name (f), (long long)w, h); vf_inflight ("create_bits %s %lldx%d", rp_name (f), (long long)w, h);
+    pixman_image_t *im = vf_chance (r, 1, 2) ? pixman_image_create_bits (f, (int)w, h, NULL, 0) : pixman_image_create_bits_no_clear (f, (int)w, h, NULL, 0);
+    vf_count ("evaluations", 1); vf_count ("huge_creations", 1);
+    if (!im) { vf_count ("huge_creations_refused", 1); return; }
+    int64_t need = (w * bpp + 7) / 8, stride = pixman_image_get_stride (im);
+    if (stride < need || pixman_image_get_width (im) != (int)w || !pixman_image_get_data (im))
+        vf_violation ("C04:created-image-smaller-than-described", "create_bits (%s, width %lld) returned an image with stride %lld bytes; a row needs %lld", rp_name (f), (long long)w, (long long)stride, (long long)need);
+    pixman_image_unref (im);
+}
+
 static void blt_monitor_case (long idx, vf_rng *r)
 {
+    if (!strcmp (vf.prop, "C04") && idx % 4 == 0) create_case (r);
     for (int k = 0; k < 20; k++) {
         switch (vf_next (r) % 5) { case 0: case 1: fill_case (r); break; case 2: if (vf_chance (r, 1, 4)) blt_same_buffer_case (r); else blt_case (r); break; default: boxes_case (r); break; }
     }
